@@ -6,6 +6,10 @@ ids = [json.loads(l)["id"] for l in open(os.path.join(VERIF, "properties.jsonl")
 HOOK_COMMITS = ["424bc8f"]
 
 CLAIMED = {
+ "C14": dict(category="proof", design="DESIGN.md §6 C14",
+   text="The constants (both moduli, a, b, generator, cofactor) and the body of mul_by_a are REGENERATED from the Rust source on every run (translator), and the Coq theorems are re-checked against them: q and r = 2^255-19 are prime (Pratt certificates checked by vm_compute, soundness via a proved Lucas theorem), the generator satisfies the curve equation and the curve is non-singular, mul_by_a_gen x = a*x for every x (ring), r.G = infinity and G <> infinity by a Jacobian double-and-add ladder, cofactor 1, and the Hasse interval around q+1 contains exactly one multiple of r. PARTIAL for '#E = r exactly': associativity of the group law, Lagrange and Hasse are not formalised (no EC library installed). K12 compares the compiled crate's constants and mul_by_a (value and representation edge cases) with the translation.",
+   note="Trusted: Coq kernel (vm_compute for certificates and the ladder); the translator (guarded by K12); the three un-formalised textbook facts named above; Jacobian formulas are the standard ones (their agreement with the affine law is not proved).",
+   technique="translator-regenerated model + machine-checked proof in Coq (Pratt/Lucas primality, ring, vm_compute ladder)"),
  "C09": dict(category="proof", design="DESIGN.md §6 C09",
    text="Structural hiding statement, proved in Coq for all programs/witnesses/draw streams: every emitted component is (witness part) + (its own transcript-RNG draw).B~ with the draw index given explicitly (C09_blinding_layout: A_I1,A_O1,S1,(A_I2,A_O2,S2),T_1..T_6, masking vectors), the draw indices used are exactly 0..ndraws-1 each once (C09_draws_used_exactly_once), a component determines its blinding when B~ <> 0 (C09_component_injective), and what is statement-fixed (identity second-phase points without second-phase gates; t_x = 0, a = 0, b = -1 for gate-free circuits). PARTIAL w.r.t. the property's indistinguishability reading: simulation-based zero knowledge is not formalised. Correspondence: every honest case is re-derived by the model from witness + RECORDED RNG draws (full algebraic opening of every commitment via MSM over real generators); rngdet stream checks keying on the real code (same seed => identical bytes; other seed or other commitment blindings => no shared component).",
    note="Trusted: Coq kernel; model tie as C01; TranscriptRng = arbitrary stream in the theorems. Not formalised: zero-knowledge simulation, STROBE keying (exercised, not proved).",
